@@ -32,7 +32,7 @@ func TestC01(t *testing.T) {
 			"random configuration (SyncUpdate, SyncRead, FailHard, MaxStaleness 0/1m, FailedUpdateTTL default/-1/5s, logger/stats on or off, "+
 			"Failover over ShardedMap/SyncMap, FailoverOf over ShardedMapOf), builders succeeding or failing (30%); every call-out of the frontend "+
 			"(backend Read/Write, builder entry/exit, debug/warn log, stats) is a parking point and the controller releases one parked goroutine "+
-			"per step (random walk, new Gets arriving with probability 0.45 per step); non-trivial = more than 2 steps per Get and >= 2 Gets; "+
+			"per step (random walk, new Gets arriving with probability 0.45 per step); callers may cancel their context and overwrite their key buffer right after Get returns; the first two keys are sometimes an xxhash64 collision pair; non-trivial = more than 2 steps per Get and >= 2 Gets; "+
 			"distinct = distinct Gallina term",
-		260, FOpts{MinGets: 2, MaxGets: 6, Keys: 3, FailRate: 0.3})
+		260, FOpts{MinGets: 2, MaxGets: 6, Keys: 3, FailRate: 0.3, Hostile: true, Collide: true})
 }
